@@ -18,6 +18,23 @@ CHECKS = {
              'Outside: boris, Multistep, RK-Nystrom, DAE sweepers, nonlinear problems, M > 6.',
         design='4/C02', technique='symbolic execution of real sweeper code + SMT (QF_NRA) validity queries',
     ),
+    'C03': dict(
+        category='other',
+        text='(a) real compute_residual on symbolic node values: reported residual == configured norm of the collocation defect (validity queries, all sweepers x 4 residual types); '
+             '(c) real check_convergence on symbolic iter/maxiter/sweep/residual/restol/flags: all paths enumerated, each equal to the stopping rule, coverage certified (unbounded integers/reals, single call); '
+             '(d) real controller explored over all residual sequences within NP<=3(4), K<=3(4): budget, logged niter, no finish without a sweep unless budget/forced; '
+             '(b) whole runs on symbolic initial values: recorded residual is the defect of the values held at that moment.',
+        note='Trusted: z3, stub linear problems, probe sweeper (real generic_implicit, symbolic reported residual). Known finding: iteration-0 convergence without a sweep (known_findings.json).',
+        design='4/C03', technique='symbolic execution of real code + SMT validity queries; bounded path exploration with coverage certificate',
+    ),
+    'C07': dict(
+        category='model_checking',
+        text='Bounded model checking of the real controller_nonMPI by symbolic execution: residuals per (step, iteration) are free reals, maxiter a free integer in 0..Kmax, '
+             'force flags free booleans; the real convergence test forks, the solver prunes infeasible branches, every feasible path is executed and the safety clauses are asserted on the '
+             'real objects; a final SMT query certifies that the explored paths cover all inputs. Bounds: quick NP<=3, levels<=3, Kmax<=3; thorough NP<=4, levels<=3, Kmax<=4, nsweeps<=2.',
+        note='Trusted: z3 feasibility answers; probe sweeper. Outside: NP>4, MPI controller, iteration estimator; single block per run.',
+        design='4/C07', technique='symbolic path exploration of the real controller with SMT feasibility pruning and coverage certificate',
+    ),
 }
 
 NOT_APPLICABLE = {
